@@ -85,7 +85,7 @@ Proof.
   destruct (InvWg_reachable _ _ Hre) as [W1 W2]. rewrite Hsd in W1. pose proof (W2 Hsd Ht) as W.
   unfold census. rewrite Hm, Hsd, Hc, Ht. unfold ctx_done. rewrite W1. cbn [orb negb andb length].
   unfold wg_zero in W. repeat (apply andb_true_iff in W as [W ?]).
-  assert (Hrn : count_if (fun p => match p with RnLaunched | RnRunning | RnSending _ => true | _ => false end) (rn s) = 0).
+  assert (Hrn : count_if (fun p => match p with RnLaunched | RnStored | RnRunning | RnSending _ => true | _ => false end) (rn s) = 0).
   { apply count_if_zero. eapply forallb_forall. intros x Hx.
     rewrite forallb_forall in W. specialize (W x Hx). destruct x; try discriminate W; reflexivity. }
   assert (Hsub : count_if (fun b => negb (sub_closed b)) (subs s) = 0).
@@ -109,7 +109,7 @@ Proof.
   intros Hre. pose proof (InvGate_reachable _ _ Hre) as IG.
   assert (L1 : length (rn s) = nrun c) by exact (ig_len _ _ IG).
   unfold census.
-  pose proof (count_if_le (fun p => match p with RnLaunched | RnRunning | RnSending _ => true | _ => false end) (rn s)).
+  pose proof (count_if_le (fun p => match p with RnLaunched | RnStored | RnRunning | RnSending _ => true | _ => false end) (rn s)).
   pose proof (count_if_le (fun p => negb (ls_finished p)) (rls s)).
   pose proof (count_if_le (fun p => negb (ls_finished p)) (sls s)).
   pose proof (count_if_le (fun p => negb (mon_finished p)) (mon s)).
